@@ -25,10 +25,11 @@ var dUsers = []string{"u1", "u2", "u3", "u4"}
 
 func DriveCfg() RunCfg {
 	return RunCfg{
-		Accts:  []string{"e1", "e2", "e3", "adm", "adm2", "u1", "u2", "u3", "u4", "x", "opchild", "feecollector"},
-		Denoms: []string{"l2/1/d1", "l2/1/d2", "l2/1/d3", "n1"},
-		Funded: M{"u1": M{"n1": int64(50)}, "u2": M{"n1": int64(50)}, "feecollector": M{"n1": int64(20)}},
-		Params: M{"admin": "adm", "execs": []any{"e1", "e2"}, "maxVals": int64(3), "histEntries": int64(1), "hookGas": "ample", "fw": []any{}},
+		Accts:   []string{"e1", "e2", "e3", "adm", "adm2", "u1", "u2", "u3", "u4", "x", "opchild", "feecollector"},
+		Denoms:  []string{"l2/1/d1", "l2/1/d2", "l2/1/d3", "n1"},
+		Funded:  M{"u1": M{"n1": int64(50)}, "u2": M{"n1": int64(50)}, "feecollector": M{"n1": int64(20)}},
+		Params:  M{"admin": "adm", "execs": []any{"e1", "e2"}, "maxVals": int64(3), "histEntries": int64(1), "hookGas": "ample", "fw": []any{}},
+		PreMeta: []string{"l2/1/d3"},
 	}
 }
 
